@@ -119,7 +119,8 @@ def check(ctx):
             if op_const(idx) is None:
                 sl = origins(rb, idx)
                 if not sl.consts or sl.locals - {op_local(idx)}:
-                    ok = sl.via_any("core::cmp::Ord::min")
+                    iv, ln = interval(rb, idx), interval(rb, t["ops"][0])
+                    ok = sl.via_any("core::cmp::Ord::min") or (iv is not None and ln is not None and 0 <= iv[0] and iv[1] < ln[0])
                     ctx.require(R1, ok, where(rb, i), "non-constant back-off index is bounded by Ord::min(.., len-1)", [RENEW, "backoff-index"])
 
     # ------------------------------------------------------------------ R2
@@ -142,7 +143,24 @@ def check(ctx):
         for c in hook_calls:
             again = set(x.bb for x in hook_calls) & rb.reachable_after(c.bb)
             ctx.require(R2, not again, c.where(), "post-operation hooks are called at most once per attempt", [RENEW, "hook-twice"])
-        # status values
+        # status values: decided by EVALUATING renew_certificate for request Ok/Err x hook Ok/Err when that is possible (whatever the
+        # shape: tuple, enum with accessors, Option<String>, report struct ..), by the shape of the match otherwise
+        ev = renew_traces(prog, rb)
+        ctx.notes.append("renew_certificate evaluated for %d/4 (request, hook) outcome combinations" % sum(1 for v in ev.values() if v["kind"] == "return"))
+    if rc_polls and hook_polls and all(v["kind"] == "return" for v in ev.values()):
+        for (rq, hk), v in sorted(ev.items()):
+            hooks_ = [e for e in v["events"] if e[0] == "hook"]
+            req_i = [i for i, e in enumerate(v["events"]) if e[0] == "request"]
+            hook_i = [i for i, e in enumerate(v["events"]) if e[0] == "hook"]
+            who = "request %s, hook %s" % ("Ok" if rq else "Err", "Ok" if hk else "Err")
+            ctx.require(R2, len(hooks_) == 1 and req_i and hook_i and req_i[0] < hook_i[0], "%s:%s" % (rb.file, rb.line), "%s: the post-operation hooks run once, after the request (%s)" % (who, v["events"]),
+                        [RENEW, "hook-once", str(rq), str(hk)])
+            if hooks_:
+                st_txt, flag = hooks_[0][1][0], hooks_[0][1][1]
+                ctx.require(R2, flag == ("bool(True)" if rq else "bool(False)"), "%s:%s" % (rb.file, rb.line), "%s: is_success = %s (found %s)" % (who, rq, flag), [RENEW, "is_success-arm", str(rq), str(hk)])
+                ctx.require(R2, (st_txt == "str('success')") if rq else ("REQ_ERR" in st_txt), "%s:%s" % (rb.file, rb.line),
+                            "%s: status text = %s (found %s)" % (who, "\"success\"" if rq else "the error's message", st_txt), [RENEW, "status-text", str(rq), str(hk)])
+    elif rc_polls and hook_polls:
         rc_creation = rb.calls_to(RC)
         tests = try_edges(rb, [rc_creation[0].dest["l"]]) if rc_creation else []
         tests = [t for t in tests if not t["adt"].endswith("Poll")]
@@ -231,7 +249,18 @@ def check(ctx):
             ctx.ok(R5, "sleep @%s:%s has constant lower bound %ss" % (rb.file_of(c.bb), c.line, lb))
         else:
             ctx.notes.append("sleep @%s: no constant lower bound (lb=%s) — does not count as a pause" % (c.line, lb))
-    if rc_polls:
+    ev5 = renew_traces(prog, rb) if rc_polls else {}
+    if rc_polls and ev5 and all(v["kind"] == "return" for v in ev5.values()):
+        lbs = {c.bb: lb for c, pbs, lb in sl_sites}
+        for (rq, hk), v in sorted(ev5.items()):
+            if rq:
+                continue
+            hook_i = [i for i, e in enumerate(v["events"]) if e[0] == "hook"]
+            after = [e for e in v["events"][(hook_i[0] if hook_i else 0):] if e[0] == "sleep"]
+            good = any((lbs.get(e[1]) or 0) >= 1 for e in after)
+            ctx.require(R5, good, "%s:%s" % (rb.file, rb.line), "failed attempt (hook %s): a pause >= 1 s follows before renew_certificate returns (sleeps after the hooks: %s)"
+                        % ("Ok" if hk else "Err", [(e[1], lbs.get(e[1])) for e in after]), [RENEW, "no-pause-after-failure", str(hk)])
+    elif rc_polls:
         rc_creation = rb.calls_to(RC)
         tests = [t for t in try_edges(rb, [rc_creation[0].dest["l"]]) if not t["adt"].endswith("Poll")]
         err_t = [tg for t in tests for tg in t["err"]]
@@ -329,7 +358,7 @@ def check_loops(ctx, long_polls):
                 ctx.require(R6, not cyc and mn >= 1, where(b, scc[0]), "every turn of the limiter loop awaits a sleep (minimum %s ms)" % mn, [k, "limiter-loop"])
             else:
                 ctx.ok(R6, "frozen: %s — %s" % (k, FROZEN_LOOPS[k]))
-    ctx.floor(R6, "genuine loop constructs found in the steady-state call graph", n, 4)
+    ctx.floor(R6, "genuine loop constructs found in the steady-state call graph", n, 2)
 
 
 def yield_and_next(b):
@@ -364,3 +393,43 @@ def has_cycle(b, nodes, excluding=()):
                 color[u] = 2
                 stack.pop()
     return False
+
+
+_RT = {}
+
+
+def renew_traces(prog, rb):
+    """renew_certificate evaluated for the four combinations (request_certificate Ok/Err) x (post-operation hooks Ok/Err): the ordered
+    events request / hook(status, is_success) / sleep(creation block). {(rq, hk): {"kind": .., "events": [..]}}"""
+    if rb.key in _RT:
+        return _RT[rb.key]
+    from ..absint import Val, marker, ok, run, struct_val, success_model
+    ERRK = "acme_common::error::Error"
+    out = {}
+    for rq in (True, False):
+        for hk in (True, False):
+            def ov(cs, args, rq=rq, hk=hk):
+                if cs.fn == "core::future::future::Future::poll" and cs.res:
+                    if cs.res.startswith(RC):
+                        inner = ok(Val("unit")) if rq else Val("adt", [struct_val(prog, ERRK, {"message": marker("REQ_ERR")})], ("core::result::Result", "Err"))
+                        return Val("adt", [inner], ("core::task::poll::Poll", "Ready"))
+                    if cs.res.startswith(HOOK):
+                        inner = ok(Val("unit")) if hk else Val("adt", [struct_val(prog, ERRK, {"message": marker("HOOK_ERR")})], ("core::result::Result", "Err"))
+                        return Val("adt", [inner], ("core::task::poll::Poll", "Ready"))
+                if (cs.name or "").endswith("error::Error::prefix") and args:
+                    return args[0].deref()
+                return None
+            st = Val("adt", [marker("CERT"), marker("ACC"), marker("EP")], ("coroutine", "state"))
+            r = run(rb, {1: st}, success_model(rb, ov), max_steps=80000)
+            evs = []
+            for c, a, res in r.calls:
+                n = c.name or ""
+                if c.is_(HOOK):
+                    evs.append(("hook", [repr(x.deref()) for x in a[1:]]))
+                elif c.is_(SLEEP):
+                    evs.append(("sleep", c.bb))
+                elif c.is_(RC):
+                    evs.append(("request",))
+            out[(rq, hk)] = {"kind": r.kind, "events": evs}
+    _RT[rb.key] = out
+    return out
